@@ -27,6 +27,7 @@ type MOp struct {
 	Auto int    `json:"auto,omitempty"` // for data on the k-th automatically assigned PID (1-based)
 	Desc string `json:"desc,omitempty"` // ES descriptors for add: "", sid, lang
 	N    int    `json:"n,omitempty"`    // addmany/rmmany count
+	Host int    `json:"host,omitempty"` // data: k > 0 = hostile payload (PES start-code look-alikes) at phase k-1
 }
 
 func (o MOp) String() string {
@@ -127,6 +128,21 @@ func payloadFor(idx, n int, seed int64) []byte {
 		b[0] = byte(0x10 + idx%0xd0)
 		if b[0] == 0x47 {
 			b[0] = 0x48
+		}
+	}
+	return b
+}
+
+// hostilePayload is what elementary streams really look like: full of 00 00 01 start codes (and
+// sync-byte values). The 9-byte pattern is a complete minimal PES header; its period is coprime with
+// 184, and the phase moves it to every position relative to the packet boundaries.
+func hostilePayload(phase, n int) []byte {
+	pat := []byte{0x00, 0x00, 0x01, 0xe0, 0x00, 0x00, 0x80, 0x00, 0x00}
+	b := make([]byte, n)
+	for i := range b {
+		b[i] = pat[(i+phase)%len(pat)]
+		if (i+phase)%45 == 44 {
+			b[i] = 0x47
 		}
 	}
 	return b
@@ -288,6 +304,9 @@ func (h *MuxH) Do(op MOp, seed int64) *MCall {
 		}
 		c.PID = pid
 		c.Payload = payloadFor(idx, op.Len, seed)
+		if op.Host > 0 {
+			c.Payload = hostilePayload(op.Host-1, op.Len)
+		}
 		c.Hdr = MakeHdr(op.Hdr, op.SID, idx)
 		c.AF = MakeAF(op.AF, idx)
 		in := append([]byte{}, c.Payload...)
